@@ -539,7 +539,15 @@ def reference(case, perfect=False):
     return root, pre, (lambda r: r), den
 
 
+def _finite(xs):
+    import math
+    return not isinstance(xs, dict) and all(
+        isinstance(x, Fraction) or math.isfinite(x) for x in xs)
+
+
 def _close(a, b, tol=TOL):
+    if not _finite([a, b]):
+        return False
     a, b = Fraction(a), Fraction(b)
     return abs(a - b) <= tol * max(abs(a), abs(b))
 
@@ -554,8 +562,10 @@ def _value_check(case, val, wit, perfect=False):
     import math
     ref = reference(case, perfect)
     deg, pre, post = ref[0], ref[1], ref[2]
-    if any(not math.isfinite(v) for v in val):
+    if not _finite(val):
         return "non-finite value %s" % val
+    if deg != 1 and not isinstance(wit, dict) and not _finite(wit):
+        return "non-finite per-output values %s" % wit
     if deg == 1:
         want = post(pre)
         if len(want) != len(val) or not all(_close(a, b) for a, b in zip(val, want)):
@@ -795,12 +805,12 @@ def coq_case(case, out):
     if case["kind"] == "class_opts":
         return None
     if case["kind"] == "class":
-        if isinstance(out["cls"], dict) or isinstance(out["func"], dict):
+        if not _finite(out["cls"]) or not _finite(out["func"]):
             return None
         if case["opts"].get("square_root") and not case["univariate"]:
             return None     # no per-output witness for a class call (covered by function cases)
         return "mkcase %s %s %s" % (_cinputs(case), _cql(out["cls"]), _cql(out["cls"]))
-    if isinstance(out["val"], dict) or isinstance(out.get("raw"), dict):
+    if not _finite(out["val"]) or not _finite(out.get("raw")):
         return None
     fam = STRUCT[_short(case["metric"])][0]
     wit = out["raw"] if fam == "simple" else out["val"]
